@@ -7,6 +7,7 @@ import (
 	"fmt"
 	"os"
 	"path/filepath"
+	"reflect"
 	"sort"
 	"strings"
 	"time"
@@ -30,6 +31,11 @@ var ranges = []rng{
 	{9 * time.Hour, 17 * time.Hour},
 	{23 * time.Hour, 24 * time.Hour},
 }
+
+var (
+	farEast = time.FixedZone("E14", 14*3600)
+	farWest = time.FixedZone("W12", -12*3600)
+)
 
 var dayKeys = []string{"sun", "mon", "tue", "wed", "thu", "fri", "sat"}
 
@@ -246,9 +252,17 @@ func run(c *lib.Ctx) {
 		bad := false
 		for _, t := range instants {
 			nontriv := trDay[t.In(z.loc).Format("2006-01-02")]
+			tviews := [3]time.Time{t.UTC(), t.In(z.loc), t.In(farEast)}
+			if !nontriv {
+				tviews[2] = t.In(farWest)
+			}
 			for si := range schs {
 				s := &schs[si]
-				got := s.w.Contains(t)
+				vi := si % 3
+				// The instant is presented in three different locations: the
+				// verdict must only depend on the instant.
+				tv := tviews[vi]
+				got := s.w.Contains(tv)
 				want := ref(t, z.loc, &s.days)
 				c.Count("evals", 1)
 				if nontriv {
@@ -345,6 +359,49 @@ func serialisation(c *lib.Ctx) {
 					}
 				}
 			}
+		}
+	}
+	// Schedules whose seven days all differ (or where one day differs from
+	// the six others): round trip through both formats must keep every day.
+	for variant := 0; variant < 9; variant++ {
+		m := map[string]any{"time_zone": "Europe/Berlin"}
+		for di, dk := range dayKeys {
+			var st, en time.Duration
+			switch {
+			case variant == 0:
+				st, en = time.Duration(di)*time.Hour, time.Duration(di+1)*time.Hour+time.Duration(di)*time.Minute
+			case variant == 1:
+				st, en = time.Duration(6-di)*time.Hour+time.Minute, time.Duration(20-di)*time.Hour
+			case di == variant-2:
+				st, en = 3*time.Hour, 4*time.Hour
+			default:
+				st, en = 10*time.Hour, 22*time.Hour+30*time.Minute
+			}
+			m[dk] = map[string]any{"start": float64(st) / 1e6, "end": float64(en) / 1e6}
+		}
+		jdoc, _ := json.Marshal(m)
+		c.Count("evals", 1)
+		c.Count("ser_docs", 1)
+		c.Distinct("nontrivial", "ser:"+string(jdoc))
+		w := &schedule.Weekly{}
+		if err := json.Unmarshal(jdoc, w); err != nil {
+			c.Violation(fmt.Sprintf("ser-json-accept:week%d", variant), fmt.Sprintf("valid weekly schedule rejected: %v", err), caseC{Ser: &serCase{Format: "json", Doc: string(jdoc), Want: "true"}})
+			continue
+		}
+		j1, _ := json.Marshal(w)
+		y1, err2 := yaml.Marshal(w)
+		w2 := &schedule.Weekly{}
+		err3 := yaml.Unmarshal(y1, w2)
+		var j2 []byte
+		if err3 == nil {
+			j2, _ = json.Marshal(w2)
+		}
+		var a, b any
+		_ = json.Unmarshal(jdoc, &a)
+		_ = json.Unmarshal(j1, &b)
+		if err2 != nil || err3 != nil || string(j1) != string(j2) || !reflect.DeepEqual(a, b) {
+			c.Violation(fmt.Sprintf("ser-roundtrip:week%d", variant), fmt.Sprintf("round trip changed a seven-day schedule:\n in  %s\n json %s\n yaml %s\n json %s (errs %v %v)", jdoc, j1, y1, j2, err2, err3),
+				caseC{Ser: &serCase{Format: "roundtrip7", Doc: string(jdoc), Want: string(j1), Got: string(j2)}})
 		}
 	}
 	// Unknown time zone and malformed documents must be rejected, not panic.
